@@ -296,7 +296,16 @@ Inductive m2m_hop :=
 | MNew (kvs : list kv)                          (* ManyToMany(pairs | mapping) *)
 | MNewFrom (i : nat) (s : bool)                 (* ManyToMany(x) *)
 | MOp (i : nat) (s : bool) (op : m2m_op)
-| MUpdFrom (i : nat) (s : bool) (j : nat) (t : bool).     (* x.update(y) *)
+| MUpdFrom (i : nat) (s : bool) (j : nat) (t : bool)      (* x.update(y) *)
+| MEq (i : nat) (s : bool) (j : nat) (t : bool).          (* x == y *)
+
+(* __eq__: self.data == other.data, i.e. python's dict == over set values:
+   same length and every key of one present in the other with an equal set *)
+Definition set_eqb (s t : list nat) : bool :=
+  Nat.eqb (length s) (length t) && forallb (fun x => s_mem x t) s.
+Definition sd_eqb (d1 d2 : sdict) : bool :=
+  Nat.eqb (length d1) (length d2) &&
+  forallb (fun p => match d_get d2 (fst p) with Some t => set_eqb (snd p) t | None => false end) d1.
 
 Definition m_empty : m2m := mkM [] [].
 
@@ -318,6 +327,11 @@ Definition m2m_hstep (h : list m2m) (hop : m2m_hop) : list m2m * res val :=
       | Some m, Some o =>
           let m' := m2m_side s (m_update_from (m2m_side s m) (m2m_side t o)) in
           (set_nth h i m', Ok VNone)
+      | _, _ => (h, Raise BadIndex)
+      end
+  | MEq i s j t =>
+      match nth_error h i, nth_error h j with
+      | Some m, Some o => (h, Ok (VBool (sd_eqb (m_data (m2m_side s m)) (m_data (m2m_side t o)))))
       | _, _ => (h, Raise BadIndex)
       end
   end.
